@@ -964,6 +964,9 @@ def behaviour_checks(ctx, outcomes, tag, stats):
     by_spec = collections.defaultdict(list)
     for c, ((label, spec, syms, text, meta), r) in zip(cases, da):
         raw = getattr(c, "raw", None) or str(c.result)
+        if isinstance(c.result, dict) and c.result.get("unbound"):
+            # an unbound-name error is identified by the NAME (interned numbers differ between texts)
+            raw = "ERR unbound:" + c.result["unbound"]
         by_spec[c.meta["spec_index"]].append((c, raw, r))
     for sidx, rows in by_spec.items():
         stats["executions"] += len(rows)
